@@ -15,9 +15,11 @@ import (
 	"math"
 	"math/rand"
 	"os"
+	"runtime/debug"
 	"strconv"
 	"strings"
 
+	"github.com/parquet-go/parquet-go"
 	"github.com/parquet-go/parquet-go/deprecated"
 	"github.com/parquet-go/parquet-go/encoding"
 	"github.com/parquet-go/parquet-go/encoding/bytestreamsplit"
@@ -44,6 +46,10 @@ type c04Case struct {
 	// Enc = "dict-life" / "dict-file": dictionary scenarios (dict.go)
 	Life *dictLifeCase `json:"life,omitempty"`
 	File *dictFileCase `json:"file,omitempty"`
+	// Enc = "dict-page": an RLE_DICTIONARY data page through Type.Decode / Type.NewPage (page.go)
+	Page *dictPageCase `json:"page,omitempty"`
+	// Enc = "dict-pages-file": an RLE_DICTIONARY column chunk of a foreign writer read through the file reader (pagefile.go)
+	PagesFile *dictPagesFileCase `json:"pages_file,omitempty"`
 }
 
 var dirty = func() []byte {
@@ -67,6 +73,17 @@ func dstBytes(rng *rand.Rand) []byte {
 	default:
 		return make([]byte, 0, rng.Intn(16))
 	}
+}
+
+// dirtyRoom returns a reused destination that is large enough for a result of
+// need bytes (and the padding the kernels ask for) and holds older data, no
+// zero byte, over its whole capacity.
+func dirtyRoom(need int) []byte {
+	b := make([]byte, need+256)
+	for i := range b {
+		b[i] = dirty[i%len(dirty)] | 0x81
+	}
+	return b[:need%5]
 }
 
 func hexList(vs [][]byte) string {
@@ -139,6 +156,9 @@ func safely(f func()) (p string) {
 	defer func() {
 		if r := recover(); r != nil {
 			p = fmt.Sprint(r)
+			if os.Getenv("C04_STACK") != "" { // development aid
+				os.Stderr.Write(debug.Stack())
+			}
 		}
 	}()
 	f()
@@ -175,6 +195,21 @@ func check(c *core.Ctx, cs *c04Case) bool {
 	case "dict-file":
 		if cs.File != nil {
 			k.checkFileCase(cs.File)
+		}
+		return k.ok
+	case "dict-pages-file":
+		if cs.PagesFile != nil {
+			if p := safely(func() { k.checkPagesFileCase(cs.PagesFile) }); p != "" {
+				parquet.VerifSetPoison(false)
+				k.viol("panic", "harness panicked on a foreign file: "+p)
+			}
+		}
+		return k.ok
+	case "dict-page":
+		if cs.Page != nil {
+			if p := safely(func() { k.checkPageCase(cs.Page) }); p != "" {
+				k.viol("panic", "harness panicked on a dictionary page: "+p)
+			}
 		}
 		return k.ok
 	}
@@ -287,10 +322,11 @@ func checkInner(k *checker, rng *rand.Rand) {
 				src[i] = int32(v)
 			}
 			got, err = e.EncodeInt32(dstBytes(rng), src)
-			dst := make([]int32, rng.Intn(8), 8+rng.Intn(len(src)+1))
+			dst := make([]int32, 8+rng.Intn(len(src)+1)) // dirty over its whole capacity
 			for i := range dst {
 				dst[i] = -12345
 			}
+			dst = dst[:rng.Intn(8)]
 			var d []int32
 			d, derr = e.DecodeInt32(dst, got)
 			for _, v := range d {
@@ -299,10 +335,11 @@ func checkInner(k *checker, rng *rand.Rand) {
 		} else {
 			src := append([]int64(nil), cs.Ints...)
 			got, err = e.EncodeInt64(dstBytes(rng), src)
-			dst := make([]int64, rng.Intn(8), 8+rng.Intn(len(src)+1))
+			dst := make([]int64, 8+rng.Intn(len(src)+1)) // dirty over its whole capacity
 			for i := range dst {
 				dst[i] = -12345
 			}
+			dst = dst[:rng.Intn(8)]
 			var d []int64
 			d, derr = e.DecodeInt64(dst, got)
 			back = append(back, d...)
@@ -493,6 +530,9 @@ func checkInner(k *checker, rng *rand.Rand) {
 		dd, doff, derr := e.DecodeByteArray(dstBytes(rng), got, make([]uint32, rng.Intn(4), 4+rng.Intn(8)))
 		if derr != nil || !eqStrs(unflatten(dd, doff), vs) {
 			k.viol("go-roundtrip", fmt.Sprintf("%s: Go decode(encode(x)) != x (%v)", cs.Enc, derr))
+		} else if d2, o2, err2 := e.DecodeByteArray(dirtyRoom(len(data)), got, dirtyOffsetsDst()); err2 != nil || !eqStrs(unflatten(d2, o2), vs) {
+			// reused destinations large enough for the result, holding older data everywhere
+			k.viol("dst-history-dependence", fmt.Sprintf("%s: decoded into nil / small destinations Go returns the input, into reused destinations holding older data it does not (%v)", cs.Enc, err2))
 		}
 		if c.HasOracle() {
 			switch {
@@ -533,6 +573,8 @@ func checkInner(k *checker, rng *rand.Rand) {
 		d, derr := e.DecodeFixedLenByteArray(dstBytes(rng), got, cs.Width)
 		if derr != nil || !bytes.Equal(d, data) {
 			k.viol("go-roundtrip", fmt.Sprintf("%s size %d: Go decode(encode(x)) != x (%v)", cs.Enc, cs.Width, derr))
+		} else if d2, err2 := e.DecodeFixedLenByteArray(dirtyRoom(len(data)), got, cs.Width); err2 != nil || !bytes.Equal(d2, data) {
+			k.viol("dst-history-dependence", fmt.Sprintf("%s size %d: decoded into nil / small destinations Go returns the input, into a reused destination holding older data it does not (%v)", cs.Enc, cs.Width, err2))
 		}
 		if c.HasOracle() {
 			switch cs.Enc {
@@ -805,6 +847,55 @@ func genStrs(rng *rand.Rand, n, kind, fixed int) []string {
 			rng.Read(b)
 		case 2: // identical
 			b = bytes.Repeat([]byte{0xFF}, l)
+		case 4:
+			// long shared prefixes (sorted URLs, paths, keys of one namespace): a value keeps p
+			// bytes of the previous one -- p around and far beyond the 16 / 32 / 64 byte steps of
+			// the vector kernels -- and adds a suffix that is short most of the time, long
+			// sometimes; now and then a fresh value starts a new family
+			if fixed > 0 {
+				p := min(len(prev), fixed)
+				switch rng.Intn(6) {
+				case 0:
+					p = rng.Intn(p + 1)
+				case 1:
+					p = 0
+				default:
+					p -= rng.Intn(min(p, 6) + 1)
+				}
+				b = append(b, prev[:p]...)
+				for len(b) < fixed {
+					b = append(b, byte('a'+rng.Intn(26)))
+				}
+				break
+			}
+			if len(prev) == 0 || rng.Intn(9) == 0 {
+				b = make([]byte, []int{0, 20, 40, 70, 100, 130, 200, 300}[rng.Intn(8)]+rng.Intn(8))
+				for j := range b {
+					b[j] = byte('a' + rng.Intn(26))
+				}
+				break
+			}
+			p := len(prev)
+			switch rng.Intn(4) {
+			case 0:
+				ps := []int{15, 16, 17, 31, 32, 33, 63, 64, 65, 66, 95, 96, 97, 127, 128, 129, 191, 192, 193, 255, 256, 257}
+				p = min(p, ps[rng.Intn(len(ps))])
+			case 1:
+				p = rng.Intn(p + 1)
+			default:
+				p -= rng.Intn(min(p, 6) + 1)
+			}
+			sl := rng.Intn(7)
+			if rng.Intn(6) == 0 {
+				sl = []int{31, 32, 33, 63, 64, 65, 100}[rng.Intn(7)]
+			}
+			if p+sl > 400 {
+				p = 400 - sl
+			}
+			b = append(b, prev[:p]...)
+			for j := 0; j < sl; j++ {
+				b = append(b, byte('a'+rng.Intn(26)))
+			}
 		default:
 			b = make([]byte, l)
 			for j := range b {
@@ -829,6 +920,8 @@ func run(c *core.Ctx) {
 		dictBulk(c)
 		dictLife(c)
 		dictFile(c)
+		dictPage(c)
+		dictPagesFile(c)
 	}
 	if os.Getenv("C04_ONLY") == "dict" {
 		return
@@ -837,7 +930,7 @@ func run(c *core.Ctx) {
 		runGeometry(c)
 		return
 	}
-	c.Res.Rule = "per (encoding, type): sequences from length buckets {0,1,2,3,7,8,9,15..17,31..33,63..65,127..130,255..258,1000,1025} x value patterns (constant, ramp, extremes, alternating, random full range, small runs; levels: constant, long runs, width-filling, group patterns; byte strings: shared prefixes, empty/long, identical, small alphabet), all RLE bit widths 0..8 (levels) and 0..32 (int32), an exhaustive sweep of all sequences of length <= 4 over {min,-1,0,1,max} for the delta encodings; destination buffers nil / dirty / oversized / reused. Checked per case: Go bytes == model bytes, Go decode(Go bytes) == input, specification decoder(Go bytes) == input. Non-trivial = at least 2 values; distinct by the JSON of the case. Conforming streams Go's encoders do not write: RLE / bit-packed streams built run by run (godec.go: run-length runs of any length, bit-packed runs of any number of groups; levels, int32, dictionary indexes, booleans; non-trivial = at least 2 runs) and DELTA pages (geometry.go: DELTA_BINARY_PACKED int32/int64, DELTA_LENGTH_BYTE_ARRAY, DELTA_BYTE_ARRAY produced by the model's encoder at every legal geometry -- block sizes 128..512 (thorough 768) x every mini-block count giving mini-blocks of a multiple of 32 values, 4096/1, thorough 65536/512 and 65536/2048 -- with value counts around the mini-block and block boundaries and the value patterns above plus walks whose bit width changes every 16 values; blocks in styles Go does not write where the specification decoder confirms the stream; non-trivial = more values than the first mini-block holds): Go's decoder must return exactly the values, the model of Go's decoder the same outcome. Dictionaries (dict.go): per dictionary kind, every short history of {Reset, Insert} calls on empty and pre-populated dictionaries and random long ones (Index/Lookup/Bounds/Page of the returned indexes against the inserted values; non-trivial = two inserts around a reset, or an insert into a pre-populated dictionary), and files/buffers of 2..4 row groups written through WriteRows and typed rows with and without fallback to PLAIN (non-trivial = at least 2 row groups actually written, and the fallback actually taken when a size limit is set)."
+	c.Res.Rule = "per (encoding, type): sequences from length buckets {0,1,2,3,7,8,9,15..17,31..33,63..65,127..130,255..258,1000,1025} x value patterns (constant, ramp, extremes, alternating, random full range, small runs; levels: constant, long runs, width-filling, group patterns; byte strings: shared prefixes, empty/long, identical, small alphabet, long shared prefixes -- values keeping 15..400 bytes of the previous one with short and long suffixes, fixed-length values of 33..260 bytes), all RLE bit widths 0..8 (levels) and 0..32 (int32), an exhaustive sweep of all sequences of length <= 4 over {min,-1,0,1,max} for the delta encodings; destination buffers nil / dirty / oversized / reused, and every byte-array decode repeated into a reused destination that holds older data over its whole capacity (malformed and foreign streams: every Go decoder run a second time into such destinations, same outcome demanded). Checked per case: Go bytes == model bytes, Go decode(Go bytes) == input, specification decoder(Go bytes) == input. Non-trivial = at least 2 values; distinct by the JSON of the case. Conforming streams Go's encoders do not write: RLE / bit-packed streams built run by run (godec.go: run-length runs of any length, bit-packed runs of any number of groups; levels, int32, dictionary indexes, booleans; non-trivial = at least 2 runs) and DELTA pages (geometry.go: DELTA_BINARY_PACKED int32/int64, DELTA_LENGTH_BYTE_ARRAY, DELTA_BYTE_ARRAY produced by the model's encoder at every legal geometry -- block sizes 128..512 (thorough 768) x every mini-block count giving mini-blocks of a multiple of 32 values, 4096/1, thorough 65536/512 and 65536/2048 -- with value counts around the mini-block and block boundaries and the value patterns above plus walks whose bit width changes every 16 values; blocks in styles Go does not write where the specification decoder confirms the stream; non-trivial = more values than the first mini-block holds): Go's decoder must return exactly the values, the model of Go's decoder the same outcome. Dictionaries (dict.go): per dictionary kind, every short history of {Reset, Insert} calls on empty and pre-populated dictionaries and random long ones (Index/Lookup/Bounds/Page of the returned indexes against the inserted values; non-trivial = two inserts around a reset, or an insert into a pre-populated dictionary), and files/buffers of 2..4 row groups written through WriteRows and typed rows with and without fallback to PLAIN (non-trivial = at least 2 row groups actually written, and the fallback actually taken when a size limit is set). RLE_DICTIONARY data pages (page.go, pagefile.go): per dictionary kind, (dictionary of 1..200 values, index stream of run-length / bit-packed runs at the needed or a wider bit width, num_values) through Type.Decode / Type.NewPage into new and into reused buffers (holding the indexes of the page decoded before, or 0xA5 bytes), and column chunks of a foreign writer (dictionary page + 2..5 data pages, required / optional) through the file reader with and without poisoned pooled buffers; num_values equal to the indexes of the stream, below them by the padding of a last bit-packed group, or ABOVE them (short streams: outside Encodings.md, accepted by the library: only independence of the buffers' history is demanded, the zero extension is compared with the model); non-trivial = at least one run and two values (pages), at least two data pages (files)."
 	rng := c.Rng
 	fuzzEvery = uint32(c.N(10, 1))
 	tieEvery = uint32(c.N(2, 1))
@@ -945,15 +1038,31 @@ func run(c *core.Ctx) {
 				runCase(c, &c04Case{Enc: "plain_bool", Ints: src, N: n}, fmt.Sprintf("len=%d", bucketOf(n)))
 			}
 			if n <= 300 || !c.Quick() {
-				for kind := 0; kind < 4; kind++ {
+				for kind := 0; kind < 5; kind++ {
 					for _, enc := range []string{"plain_ba", "dlba", "dba"} {
+						if kind == 4 && (c.Quick() && n > 130 || n > 300) && enc != "dba" {
+							continue // (long pages of long values: the encoding that shares prefixes)
+						}
 						runCase(c, &c04Case{Enc: enc, Strs: genStrs(rng, n, kind, 0)}, fmt.Sprintf("len=%d", bucketOf(n)))
 					}
-					for _, size := range []int{1, 4, 12, 16, 17} {
-						if c.Quick() && n > 70 && size != 16 && size != 4 {
+					sizes := []int{1, 4, 12, 16, 17}
+					switch kind { // values longer than one, two and four steps of the vector kernels
+					case 2:
+						sizes = []int{1, 4, 12, 16, 17, 70}
+					case 4:
+						sizes = []int{16, 17, 33, 40, 70, 133, 260}
+					}
+					for _, size := range sizes {
+						if c.Quick() && n > 70 && size != 16 && size != 4 && size != 70 {
+							continue
+						}
+						if n > 300 && size > 17 && (kind != 4 || size > 133) { // (the oracle's time on long pages of long values)
 							continue
 						}
 						for _, enc := range []string{"plain_flba", "dba_flba", "bss_flba"} {
+							if kind == 4 && (c.Quick() && n > 130 || n > 300) && enc != "dba_flba" {
+								continue
+							}
 							runCase(c, &c04Case{Enc: enc, Width: size, Strs: genStrs(rng, n, kind, size)}, fmt.Sprintf("size=%d", size))
 						}
 					}
